@@ -182,8 +182,23 @@ def _sequential_table(p, led, tier, cascade, runfi):
     FACTORS, MAXAMP = (8.0, 0.5, 3.0), 5.0      # the first stage saturates the gain control, the second attenuates
     shapes = list(itertools.product((True, False), (True, False), (True, False)))     # (has checkpoint, required, has on_error)
     sizes = (1, 2) if tier == "quick" else (1, 2, 3)
+    NGATE = 5 if tier == "quick" else 6       # gate outcomes: pass, refuse, raise, raise without message, None (thorough: also 0)
     probs = {"C19-R1": [], "C19-R2": [], "C19-R3": [], "C19-R4": []}
     npaths = nconf = 0
+    # enum-typed options of the constructor and their non-default members
+    MODE_OPTIONS, MODE_CLS = [], {}
+    init = cascade.methods.get("__init__")
+    if init is not None:
+        a_ = init.node.args
+        defaults = dict(zip([x.arg for x in a_.args][len(a_.args) - len(a_.defaults):], a_.defaults))
+        for x in a_.args:
+            if x.annotation is not None and isinstance(x.annotation, ast.Name):
+                ec = next((ci for ci in p.classes.get(x.annotation.id, []) if ci.is_enum()), None)
+                if ec is not None:
+                    dflt = defaults.get(x.arg)
+                    dname = dflt.attr if isinstance(dflt, ast.Attribute) else None
+                    MODE_CLS[x.arg] = ec
+                    MODE_OPTIONS += [(x.arg, mn) for mn, _ in ec.enum_members() if mn != dname]
     for n in sizes:
         combos = list(itertools.product(shapes, repeat=n)) if n <= 2 else [c for c in itertools.product(shapes, repeat=n) if c[0][0] and c[1][1]]
         variants = [(c_, h_, "plain") for c_ in combos for h_ in (True, False)]
@@ -193,6 +208,11 @@ def _sequential_table(p, led, tier, cascade, runfi):
         # the same cascade run a second time on the same signal after a first run in which everything passed: nothing the
         # first run left behind (a remembered gate verdict, a counter) may stand in for this run's gates
         variants += [(c_, h_, "second-run") for c_ in combos if all(x[0] for x in c_) for h_ in (True, False)]
+        if n == 2:
+            # every other value of an enum-typed constructor option (the cascade's `mode`): `run` is the sequential runner
+            # whatever the mode says, and the statement's clauses hold for it in every configuration
+            for pname, mem in MODE_OPTIONS:
+                variants += [(c_, h_, f"option {pname}={mem}") for c_ in combos if all(x[0] and not x[2] for x in c_) for h_ in (True, False)]
         for combo, halt, variant in variants:
             if True:
                 nconf += 1
@@ -201,17 +221,26 @@ def _sequential_table(p, led, tier, cascade, runfi):
                     it = Interp(p, o)
                     log = []
                     phase = {"first": _variant == "second-run"}
-                    casc = it.instantiate(cascade, ["c"], dict(halt_on_failure=_halt, max_amplification=MAXAMP, silent=True))
+                    ckw = dict(halt_on_failure=_halt, max_amplification=MAXAMP, silent=True)
+                    if _variant.startswith("option "):
+                        pn_, mn_ = _variant[len("option "):].split("=")
+                        ckw[pn_] = it.enum_member(MODE_CLS[pn_], mn_)
+                    casc = it.instantiate(cascade, ["c"], ckw)
                     for i, (has_cp, required, has_err) in enumerate(_combo):
                         def mk(i=i):
                             @stub
                             def cp(interp, args, kwargs):
-                                k = 0 if phase["first"] else interp.o.choose(2 if _variant == "same-name" else 4, f"checkpoint {i}: passes / refuses / raises / raises an exception without a message")
+                                nk = 2 if (_variant == "same-name" or _variant.startswith("option ")) else NGATE
+                                k = 0 if phase["first"] else interp.o.choose(nk, f"checkpoint {i}: passes / refuses / raises / raises an exception without a message / answers None / answers 0")
                                 log.append(("cp", i, args[0], k))
                                 if k == 2:
                                     raise PyRaise(ExcVal("RuntimeError", ("gate crashed",)))
                                 if k == 3:
                                     raise PyRaise(ExcVal("AssertionError", ()))          # `assert x > 10`: str(e) == ""
+                                if k == 4:
+                                    return None          # `return d.get("approved")`: not true — the gate did not pass
+                                if k == 5:
+                                    return 0
                                 return k == 0
 
                             @stub
@@ -261,7 +290,7 @@ def _sequential_table(p, led, tier, cascade, runfi):
                     raise AnchorError(f"Cascade.run could not be interpreted for pipeline {combo}: {e}")
                 npaths += len(paths)
                 for r in paths:
-                    tag = f"stages(checkpoint,required,on_error)={list(combo)} halt_on_failure={halt}" + ({"plain": "", "same-name": ", all stages share one name", "second-run": ", second run of the same cascade on the same signal"}[variant])
+                    tag = f"stages(checkpoint,required,on_error)={list(combo)} halt_on_failure={halt}" + ({"plain": "", "same-name": ", all stages share one name", "second-run": ", second run of the same cascade on the same signal"}.get(variant, ", " + variant))
                     if "raised" in r:
                         probs["C19-R2"].append(f"{tag}: run raises {r['raised']}")
                         continue
